@@ -22,30 +22,32 @@ type Stim struct {
 	Pre  *bool  `json:"pre,omitempty"`  // optional filter on RequestVote.Prevote
 	D    int    `json:"d,omitempty"`    // milliseconds
 	Val  string `json:"val,omitempty"`
-	K    int    `json:"k,omitempty"`   // submit: operation type; armcrash: delta
+	K    int    `json:"k,omitempty"`     // submit: operation type; armcrash: delta
 	TO   int    `json:"to_ms,omitempty"` // client time-out, ms
-	ID   string `json:"id,omitempty"`  // membership target
-	V    bool   `json:"v,omitempty"`   // voter flag
-	W    string `json:"w,omitempty"`   // before | after ; gate kind
+	ID   string `json:"id,omitempty"`    // membership target
+	V    bool   `json:"v,omitempty"`     // voter flag
+	W    string `json:"w,omitempty"`     // before | after ; gate kind
 	On   bool   `json:"on,omitempty"`
 }
 
 // Scenario describes one bubble run.
 type Scenario struct {
-	Name       string   `json:"name"`
-	Voters     []string `json:"voters"`
-	NonVoters  []string `json:"nonvoters,omitempty"` // bootstrapped members that... (unused: Bootstrap makes everyone a voter)
-	Extra      []string `json:"extra,omitempty"`     // started with empty configuration, to be added later
-	Controlled bool     `json:"controlled"`
-	Auto       bool     `json:"auto"`
-	SnapEvery  int      `json:"snap_every,omitempty"`
-	SnapPad    int      `json:"snap_pad,omitempty"`
-	Stimuli    []Stim   `json:"stimuli,omitempty"`
-	Heal       bool     `json:"heal"`
-	HealET     int      `json:"heal_et,omitempty"` // heal bound in election timeouts (default 60)
-	Random     *RandCfg `json:"random,omitempty"`
-	Family     string   `json:"family,omitempty"`
-	LatencyUS  int      `json:"latency_us,omitempty"`
+	Name        string     `json:"name"`
+	Voters      []string   `json:"voters"`
+	NonVoters   []string   `json:"nonvoters,omitempty"` // bootstrapped members that... (unused: Bootstrap makes everyone a voter)
+	Extra       []string   `json:"extra,omitempty"`     // started with empty configuration, to be added later
+	Controlled  bool       `json:"controlled"`
+	Auto        bool       `json:"auto"`
+	SnapEvery   int        `json:"snap_every,omitempty"`
+	SnapPad     int        `json:"snap_pad,omitempty"`
+	Stimuli     []Stim     `json:"stimuli,omitempty"`
+	Heal        bool       `json:"heal"`
+	HealET      int        `json:"heal_et,omitempty"` // heal bound in election timeouts (default 60)
+	Random      *RandCfg   `json:"random,omitempty"`
+	Spec        []SpecStep `json:"spec,omitempty"` // a TLC behaviour of Raft.tla to be replayed step by step
+	StopOnDrift bool       `json:"stop_on_drift,omitempty"`
+	Family      string     `json:"family,omitempty"`
+	LatencyUS   int        `json:"latency_us,omitempty"`
 }
 
 type Runner struct {
@@ -53,6 +55,8 @@ type Runner struct {
 	sc      *Scenario
 	skipped int
 	done    int
+	drift   int
+	matched int
 	ops     map[int]bool
 }
 
@@ -415,6 +419,15 @@ func (r *Runner) Run() {
 	r.setup()
 	for _, s := range sc.Stimuli {
 		r.Do(s)
+	}
+	for k, st := range sc.Spec {
+		r.specStep(k, st)
+		if r.drift > 0 && sc.StopOnDrift {
+			break
+		}
+	}
+	if len(sc.Spec) > 0 {
+		c.rec.Emit("spec_done", Ev{"steps": len(sc.Spec), "matched": r.matched, "drift": r.drift})
 	}
 	if sc.Random != nil {
 		r.random(sc.Random)
